@@ -8,7 +8,8 @@ NXDOMAIN only for unknown names, and returns certificate details only to loopbac
 overlay addresses."
 
 Reading of "known name": a name for which the responder currently publishes an address record, i.e.
-(lower-cased) the FQDN of a certificate seen in a handshake, or its own, since DNS was last disabled.
+(lower-cased) the FQDN of a certificate seen in a handshake since DNS was last disabled, or of its
+*current* own certificate (a replaced own certificate's name is withdrawn at the next reload).
 -/
 import Nebula.Model.Dns
 
@@ -48,26 +49,58 @@ def isLocal (self : Self) (client : Addr) : Bool :=
     | some (_, as) => memAddr c as
     | none => false)
 
-/-- The lower-cased names the responder publishes after a history (`enabled`, names). -/
-def publishStep (self : Self) (st : Bool × List Name) : Ev → Bool × List Name
-  | .hs _ n as => if st.1 && !as.isEmpty then (st.1, lower (n ++ ['.']) :: st.2) else st
-  | .seed =>
-    match st.1, self with
-    | true, some (n, as) =>
-      let rest := st.2.filter (· != lower n ++ ['.'])
-      (true, if as.isEmpty then rest else (lower n ++ ['.']) :: rest)
-    | _, _ => st
-  | .disable => (false, [])
-  | .enable =>
-    match self with
-    | some (n, as) =>
-      let rest := st.2.filter (· != lower n ++ ['.'])
-      (true, if as.isEmpty then rest else (lower n ++ ['.']) :: rest)
-    | none => (true, st.2)
+/-- the node's own certificate after a history (replaced by every `renew`). -/
+def selfAfter (me : Self) (evs : List Ev) : Self :=
+  evs.foldl (fun cur e => match e with
+    | .renew n as => some (n, as)
+    | _ => cur) me
 
-def published (self : Self) (evs : List Ev) : List Name := (evs.foldl (publishStep self) (true, [])).2
+/-- What the responder publishes after a history: whether DNS is enabled, the lower-cased names with a
+record, the name last seeded for ourselves, and the current own certificate. -/
+structure PubSt where
+  en : Bool
+  names : List Name
+  selfHost : Name
+  cur : Self
 
-def known (self : Self) (evs : List Ev) (name : Name) : Bool := (published self evs).contains (lower name)
+/-- (re)publishing the own name: the previously seeded own name is withdrawn when it differs, the
+current one is published iff the certificate has an overlay address. -/
+def seedStep (st : PubSt) : PubSt :=
+  match st.en, st.cur with
+  | true, some (n, as) =>
+    let newHost := lower n ++ ['.']
+    let names1 := if st.selfHost != [] && st.selfHost != newHost then st.names.filter (· != st.selfHost) else st.names
+    let rest := names1.filter (· != newHost)
+    { st with selfHost := newHost, names := if as.isEmpty then rest else newHost :: rest }
+  | _, _ => st
+
+def publishStep (st : PubSt) : Ev → PubSt
+  | .hs _ n as => if st.en && !as.isEmpty then { st with names := lower (n ++ ['.']) :: st.names } else st
+  | .seed => seedStep st
+  | .disable => { st with en := false, names := [], selfHost := [] }
+  | .enable => seedStep { st with en := true }
+  | .renew n as => seedStep { st with cur := some (n, as) }
+  | .drop _ => st
+
+def pubAfter (me : Self) (evs : List Ev) : PubSt :=
+  evs.foldl publishStep { en := true, names := [], selfHost := [], cur := me }
+
+def published (me : Self) (evs : List Ev) : List Name := (pubAfter me evs).names
+
+/-- `me`: the own certificate at the start of the history. -/
+def known (me : Self) (evs : List Ev) (name : Name) : Bool := (published me evs).contains (lower name)
+
+/-- lower-cased FQDNs of own certificates that have since been replaced by one of another name. -/
+def formerOwnNames (me : Self) (evs : List Ev) : List Name :=
+  let cur := match selfAfter me evs with
+    | some (n, _) => [lower n ++ ['.']]
+    | none => []
+  let all := (match me with
+    | some (n, _) => [lower n ++ ['.']]
+    | none => []) ++ evs.filterMap (fun e => match e with
+      | .renew n _ => some (lower n ++ ['.'])
+      | _ => none)
+  all.filter (fun n => !cur.contains n)
 
 def answerOK (self : Self) (evs : List Ev) (client : Addr) (qs : List Question) : Answer → Bool
   | .a name addr => addr.fam == .v4 && authentic self evs name addr &&
@@ -80,15 +113,20 @@ def answerOK (self : Self) (evs : List Ev) (client : Addr) (qs : List Question) 
           | some ip => certOwns self evs ip c
           | none => false))
 
-/-- `none` = the response satisfies the property; `some cls` = the class of the violation. -/
-def respViolation (self : Self) (evs : List Ev) (client : Addr) (qs : List Question) (r : Resp) : Option String :=
-  match r.answers.find? (fun a => !answerOK self evs client qs a) with
-  | some (.txt _ _) => if isLocal self client then some "txt-not-from-handshake-data" else some "txt-to-remote-client"
-  | some _ => some "address-answer-not-from-certificates"
+/-- `none` = the response satisfies the property; `some cls` = the class of the violation.
+`me` is the own certificate at the start of the history; answers are judged against the *current* own
+certificate `selfAfter me evs` and the handshake history. -/
+def respViolation (me : Self) (evs : List Ev) (client : Addr) (qs : List Question) (r : Resp) : Option String :=
+  let cur := selfAfter me evs
+  match r.answers.find? (fun a => !answerOK cur evs client qs a) with
+  | some (.txt _ _) => if isLocal cur client then some "txt-not-from-handshake-data" else some "txt-to-remote-client"
+  | some (.a n _) | some (.aaaa n _) =>
+    if (formerOwnNames me evs).contains (lower n) then some "stale-own-name-after-certificate-rename"
+    else some "address-answer-not-from-certificates"
   | none =>
     if r.rcode == rcodeNameError then
       if !r.answers.isEmpty then some "nxdomain-with-answers"
-      else match qs.find? (fun q => known self evs q.name) with
+      else match qs.find? (fun q => known me evs q.name) with
         | some q => if q.qtype == typeA || q.qtype == typeAAAA then some "nxdomain-for-known-name"
                     else some "nxdomain-for-known-name-other-type"
         | none => none
